@@ -516,7 +516,7 @@ def render_case(case, res):
                     res.violation("to_string|alwayssign", f"{sp!r}, expected {want_sp!r} [{sub}]", case, sub)
             except Exception as e:
                 res.violation("to_string|alwayssign raised", f"{type(e).__name__}: {e} [{sub}]", case, sub)
-            for k in range(0, 13):
+            for k in list(range(0, 13)) + [15, 17, 20, 25, 30]:          # ("any number of decimals")
                 forms = [("to_string(precision)", lambda: str(p.to_string(precision=k)))]
                 if k >= 1:
                     forms.append(("format", lambda: format(p, f".{k}f")))
